@@ -44,12 +44,12 @@ def transform(draw, ndim):
 
 @st.composite
 def case_strategy(draw):
-    case = draw(c01.case_strategy())
+    case = draw(c01.case_strategy(allow_rle=True))
     if case["matcher"] is not None:
         kind = draw(st.sampled_from(["naive", "naive", "naive_m2o", "merge"]))
         case["matcher"]["kind"] = "merge" if kind == "merge" else "naive"
         case["matcher"]["m2o"] = kind == "naive_m2o"
-    nd = np.array(case["ref"]).ndim
+    nd = 1 if "rle" in case else np.array(case["ref"]).ndim
     case["transforms"] = [draw(transform(nd)) for _ in range(3)]
     case["gmetrics"] = ["DSC", "IOU", "ASSD"]
     return case
